@@ -11,6 +11,8 @@ separated list ("-" = empty).
   verifyidx alg=.. root=.. leaf=.. index=<n> proof=.. exp=..   Verifier::verify_with_index
   # dist alg=.. w=<window>                                     a MerkleDistributor history:
   setroot root=..
+  advance d=<ledgers> look=<0|1>        the ledger moves on and nobody touches the contract; look=1:
+                                        root and flags are observed afterwards, look=0: `ok now=<n>`
   claim mode=<sorted|indexed> index=<n> leaf=<H(leaf xdr)> proof=.. exp=..
   # airdrop alg=sha w=.. root=.. pool=<funding> nrcv=<k>       the fungible-merkle-airdrop example:
   aclaim index=.. rcv=<i> amount=.. leaf=.. proof=.. exp=..
@@ -57,6 +59,7 @@ structure St where
   dist : Dist Node := Dist.empty
   pool : Int := 0
   bal : List Int := []
+  now : Nat := 0
 
 def claimedList (d : Dist Node) (w : Nat) : List Nat :=
   ((List.range w) ++ [4294967294, 4294967295]).filter (fun i => d.claimed i)
@@ -71,9 +74,11 @@ def showAir (ok : Bool) (s : St) : String :=
 def initSt (label : String) : St :=
   let ws := words label
   match ws with
-  | "dist" :: rest => { kind := "dist", alg := (kv? rest "alg").getD "sha", w := (kvNat? rest "w").getD 0 }
+  | "dist" :: rest => { kind := "dist", alg := (kv? rest "alg").getD "sha", w := (kvNat? rest "w").getD 0,
+                        now := (kvNat? rest "start").getD 0 }
   | "airdrop" :: rest =>
     { kind := "airdrop", alg := (kv? rest "alg").getD "sha", w := (kvNat? rest "w").getD 0,
+      now := (kvNat? rest "start").getD 0,
       dist := { root := hexArg rest "root", claimed := fun _ => false },
       pool := (kvInt? rest "pool").getD 0, bal := List.replicate ((kvNat? rest "nrcv").getD 0) 0 }
   | _ => {}
@@ -109,6 +114,10 @@ def stepOp (s : St) (line : String) : St × String :=
     | some root, some leaf, some proof, some index =>
       (s, showBoolRes (verifyWithIndex (opsOf alg) proof root leaf index))
     | _, _, _, _ => (s, "bad-op")
+  | "advance" :: rest =>
+    -- persistent / instance entries do not expire in the model: time changes nothing
+    let s' := { s with now := s.now + (kvNat? rest "d").getD 0 }
+    if kv? rest "look" = some "1" then (s', showDist true s'.dist s'.w) else (s', s!"ok now={s'.now}")
   | "setroot" :: rest =>
     match hexArg rest "root" with
     | some r =>
@@ -220,10 +229,17 @@ def monStateless (opl obs : String) : Option String :=
 
 def parseClaimed (ws : List String) : List Nat := natList ((kv? ws "claimed").getD "-")
 
+/-- flags that are newly set although no accepted claim for exactly that index produced them -/
+def spurious (old new : List Nat) (accepted : Option Nat) : List Nat :=
+  new.filter (fun j => ¬ old.contains j ∧ accepted ≠ some j)
+
+def isBlindAdvance (ws : List String) : Bool := ws.head? = some "advance" ∧ kv? ws "look" ≠ some "1"
+
 def monDist (m : Mon) (opl obs : String) : Mon × Option String :=
   let ws := words opl
   let ows := words obs
   let ok := ows.head? = some "ok"
+  if isBlindAdvance ws then (m, if ok then none else some "site=c17.advance advancing the ledger failed") else
   let oroot : Option Node := match kv? ows "root" with | some "none" => none | some h => ofHex h | none => none
   let oclaimed := parseClaimed ows
   let m' : Mon := { m with root := oroot, claimed := oclaimed }
@@ -232,6 +248,11 @@ def monDist (m : Mon) (opl obs : String) : Mon × Option String :=
     (m', some "site=distributor.unmarked an index that was claimed is not claimed any more")
   else
   match ws with
+  | "advance" :: _ =>
+    if oclaimed ≠ m.claimed then
+      (m', some s!"site=distributor.spurious_claimed flags {spurious m.claimed oclaimed none} appeared while time passed")
+    else if oroot ≠ m.root then (m', some "site=distributor.root_lost the root changed while time passed")
+    else (m', none)
   | "setroot" :: rest =>
     let r := hexArg rest "root"
     if ¬ ok then (m', some "site=distributor.set_root set_root failed")
@@ -247,8 +268,10 @@ def monDist (m : Mon) (opl obs : String) : Mon × Option String :=
         | some root => monVerify (hashOf m.alg) indexed root leaf index proof == some true
       let was := m.claimed.contains index
       let new := oclaimed.filter (fun i => ¬ m.claimed.contains i)
+      let sp := spurious m.claimed oclaimed (if ok then some index else none)
       let f : Option String :=
-        if ok ∧ was then some s!"site=distributor.double_claim index {index} was claimed again"
+        if sp ≠ [] then some s!"site=distributor.spurious_claimed flags {sp} are set although no claim for them was accepted (op: claim index {index}, {if ok then "accepted" else "refused"})"
+        else if ok ∧ was then some s!"site=distributor.double_claim index {index} was claimed again"
         else if ok ∧ (expTag rest).startsWith "c:" then some s!"site=distributor.accept.{((expTag rest).drop 2).toString} a corrupted claim was accepted"
         else if ok ∧ ¬ valid then some s!"site=distributor.claimed_without_valid_proof claim for index {index} accepted although the proof does not verify against the current root"
         else if ok ∧ new ≠ [index] then some s!"site=distributor.marks accepted claim for {index} marked {new}"
@@ -264,6 +287,7 @@ def monAir (m : Mon) (opl obs : String) : Mon × Option String :=
   let ws := words opl
   let ows := words obs
   let ok := ows.head? = some "ok"
+  if isBlindAdvance ws then (m, if ok then none else some "site=c17.advance advancing the ledger failed") else
   let oclaimed := parseClaimed ows
   let opool := (kvInt? ows "pool").getD 0
   let obal := intList ((kv? ows "bal").getD "-")
@@ -281,8 +305,10 @@ def monAir (m : Mon) (opl obs : String) : Mon × Option String :=
       let was := m.claimed.contains index
       let new := oclaimed.filter (fun i => ¬ m.claimed.contains i)
       let paid : List Int := (List.range m.bal.length).map (fun j => m.bal.getD j 0 + (if j = rcv then amount else 0))
+      let sp := spurious m.claimed oclaimed (if ok then some index else none)
       let f : Option String :=
-        if ok ∧ was then some s!"site=airdrop.double_claim index {index} was paid again"
+        if sp ≠ [] then some s!"site=distributor.spurious_claimed flags {sp} are set although no claim for them was accepted (airdrop claim index {index})"
+        else if ok ∧ was then some s!"site=airdrop.double_claim index {index} was paid again"
         else if ok ∧ (expTag rest).startsWith "c:" then some s!"site=airdrop.accept.{((expTag rest).drop 2).toString} a corrupted claim was paid"
         else if ok ∧ ¬ valid then some s!"site=airdrop.claimed_without_valid_proof claim for index {index} paid although the proof does not verify"
         else if ok ∧ new ≠ [index] then some s!"site=airdrop.marks accepted claim for {index} marked {new}"
